@@ -7,7 +7,7 @@ Expression level
   * `a == x or a == y`, `a in [x, y]`            ->  `a in (x, y)`
   * negations pushed inward (De Morgan), `not a < b` -> `a >= b`, `not a in b` -> `a not in b`
   * constants on the right of a comparison (`0 > x` -> `x < 0`); chained comparisons -> conjunction
-  * `X[k] if k in X else d`                      ->  `X.get(k, d)`
+  * `X[k] if k in X else d`                      ->  `X.get(k, d)`  (d a name / constant / .get chain: safe to evaluate early)
   * `'..{}..'.format(a)`                         ->  f-string (when the format is a literal with plain fields)
   * `x = A if c else B` used as a statement value is kept (no statement rewriting of expressions)
   * neither operand constant: `b > a` -> `a < b`, `b >= a` -> `a <= b`; operands of == / != ordered by shape (identifiers blanked)
@@ -74,6 +74,22 @@ def _is_const(e):
 
 def _dump(e):
     return ast.dump(e, annotate_fields=False)
+
+
+def _safe_default(e):
+    """evaluating e early (as the default argument of .get) cannot raise or have an effect: names, constants,
+    empty displays, attribute chains, `.get(..)` of such"""
+    if isinstance(e, (ast.Constant, ast.Name)):
+        return True
+    if isinstance(e, (ast.List, ast.Tuple, ast.Set)):
+        return all(_safe_default(x) for x in e.elts)
+    if isinstance(e, ast.Dict):
+        return all(k is not None and _safe_default(k) for k in e.keys) and all(_safe_default(v) for v in e.values)
+    if isinstance(e, ast.Call) and isinstance(e.func, ast.Attribute) and e.func.attr == "get" and not e.keywords and _safe_default(e.func.value) and all(_safe_default(a) for a in e.args):
+        return True
+    if isinstance(e, ast.UnaryOp) and isinstance(e.operand, ast.Constant):
+        return True
+    return False
 
 
 def _shape_key(e):
@@ -269,7 +285,7 @@ class ExprCanon(ast.NodeTransformer):
         if isinstance(t, ast.Compare) and len(t.ops) == 1 and isinstance(t.ops[0], (ast.In, ast.NotIn)):
             body, orelse = (node.body, node.orelse) if isinstance(t.ops[0], ast.In) else (node.orelse, node.body)
             k, X = t.left, t.comparators[0]
-            if isinstance(body, ast.Subscript) and _dump(body.value) == _dump(X) and _dump(body.slice) == _dump(k):
+            if isinstance(body, ast.Subscript) and _dump(body.value) == _dump(X) and _dump(body.slice) == _dump(k) and _safe_default(orelse):
                 return _loc(ast.Call(func=_loc(ast.Attribute(value=X, attr="get", ctx=ast.Load()), node), args=[k, orelse], keywords=[]), node)
         if isinstance(t, ast.UnaryOp) and isinstance(t.op, ast.Not):
             return _loc(ast.IfExp(test=t.operand, body=node.orelse, orelse=node.body), node)
@@ -1149,7 +1165,7 @@ def swap_if(s):
         b, o = (s.body[0], s.orelse[0]) if isinstance(t.ops[0], ast.In) else (s.orelse[0], s.body[0])
         if isinstance(b, ast.Assign) and isinstance(o, ast.Assign) and len(b.targets) == 1 and len(o.targets) == 1 and _dump(b.targets[0]) == _dump(o.targets[0]):
             k, X = t.left, t.comparators[0]
-            if isinstance(b.value, ast.Subscript) and _dump(b.value.value) == _dump(X) and _dump(b.value.slice) == _dump(k):
+            if isinstance(b.value, ast.Subscript) and _dump(b.value.value) == _dump(X) and _dump(b.value.slice) == _dump(k) and _safe_default(o.value):
                 call = _loc(ast.Call(func=_loc(ast.Attribute(value=X, attr="get", ctx=ast.Load()), s), args=[k, o.value], keywords=[]), s)
                 return _loc(ast.Assign(targets=b.targets, value=call), s)
     return s
